@@ -34,6 +34,7 @@ from vlib.val import line, Word
 from vlib.compare import diff, Err, is_err
 
 ID = 'C12'
+PYOBJECT_METHODS = ['split', 'lower_periodic', 'make_periodic', 'make_periodic_c', 'insert_knot', 'raise_order']   # splineobject.py methods re-translated and proved equal to the hand model each run
 RTOL = 1e-7      # multiplied by the measured condition number for control points
 ATOL = 1e-11
 KTOL = 1e-12     # knot vectors
